@@ -214,6 +214,7 @@ charconst(struct scanner *s)
 		case '\0':
 			error(&s->loc, "null byte in character constant");
 		case '\n':
+			--s->loc.line;
 			error(&s->loc, "newline in character constant");
 		case EOF:
 			error(&s->loc, "EOF in character constant");
@@ -240,6 +241,7 @@ stringlit(struct scanner *s)
 		case '\0':
 			error(&s->loc, "null byte in string literal");
 		case '\n':
+			--s->loc.line;
 			error(&s->loc, "newline in string literal");
 		case EOF:
 			error(&s->loc, "EOF in string literal");
@@ -339,6 +341,8 @@ again:
 	case '|':
 		return op3(s, TBOR, TBORASSIGN, TLOR);
 	case '\n':
+		/* the newline belongs to the line it ends */
+		--loc->line;
 		nextchar(s);
 		return TNEWLINE;
 	case '[':
@@ -456,10 +460,10 @@ scansetloc(struct location loc)
 {
 	/*
 	tok is the newline that ends the directive, located on the
-	line that follows it. The scanner is one character ahead and
-	has already counted any newline it read since then.
+	directive's own line. The scanner is one character ahead and
+	has already counted that newline and any it read since then.
 	*/
-	scanner->loc.line = loc.line + (scanner->loc.line - tok.loc.line);
+	scanner->loc.line = loc.line + (scanner->loc.line - tok.loc.line - 1);
 	scanner->loc.file = loc.file;
 }
 
